@@ -43,23 +43,31 @@ def cpu_list(vdir):
 FILLS = ["00" * 14, "ff" * 14, "55aa" * 7]
 
 
-def dis_cases(cpus, tier, seed):
+def fill_for(p, cpu_index):
+    """the 14 bytes after a leading pattern: a function of the pattern only, so that the
+    quick tier (a seeded subset of patterns) explores a subset of what the thorough tier explores"""
+    if p % 4:
+        return FILLS[p % 3]
+    x = (p * 2654435761 + cpu_index * 40503 + 12345) & 0xffffffff
+    out = []
+    for _ in range(14):
+        x = (x * 1103515245 + 12345) & 0x7fffffff
+        out.append("%02x" % ((x >> 16) & 0xff))
+    return "".join(out)
+
+
+def dis_cases(cpus, tier, seed, every=1):
     rnd = random.Random(seed)
     cases = []
     for ci, cpu in enumerate(cpus):
         if tier == "thorough":
-            pats = range(65536)
+            pats = range(0, 65536, every)
         else:
             pats = sorted(set(rnd.sample(range(65536), 3000) + [0, 0xffff, 0x00ff, 0xff00, 0x8000, 0x0080]))
         for p in pats:
-            if tier == "thorough":
-                fills = [FILLS[p % 3] if p % 4 else "%028x" % rnd.getrandbits(112)]
-            else:
-                fills = [rnd.choice(FILLS + ["%028x" % rnd.getrandbits(112)])]
-            for fi, f in enumerate(fills):
-                addr = 0 if ((p >> 3) + fi) % 2 == 0 else 0x1000
-                cases.append(("%s.%04x.%d" % (cpu["name"], p, fi), "kind=dis cpu=%s addr=%d" % (cpu["name"], addr),
-                              "%04x%s" % (p, f)))
+            addr = 0 if (p >> 3) % 2 == 0 else 0x1000
+            cases.append(("%s.%04x" % (cpu["name"], p), "kind=dis cpu=%s addr=%d" % (cpu["name"], addr),
+                          "%04x%s" % (p, fill_for(p, cpu["type"]))))
     return cases
 
 
